@@ -606,7 +606,7 @@ theorem delRetraceLeft_bal {l' : Tree α} {k : Nat} {p : α} {b : Int} {r : Tree
       simp; omega
     · obtain ⟨t, e, bt, ht, _⟩ := rotateLeft_bal (k := k) (p := p) hl hr hh (by omega)
       by_cases c3 : rootBal r = 0
-      · refine ⟨t, false, by simp [c2, e, c3], bt, ?_⟩
+      · refine ⟨t, false, by simp [e, c3], bt, ?_⟩
         simp [c3] at ht
         simp; omega
       · refine ⟨t, true, by simp [c2, e, c3], bt, ?_⟩
@@ -636,7 +636,7 @@ theorem delRetraceRight_bal {l : Tree α} {k : Nat} {p : α} {b : Int} {r' : Tre
       simp; omega
     · obtain ⟨t, e, bt, ht, _⟩ := rotateRight_bal (k := k) (p := p) hr hl hh (by omega)
       by_cases c3 : rootBal l = 0
-      · refine ⟨t, false, by simp [c2, e, c3], bt, ?_⟩
+      · refine ⟨t, false, by simp [e, c3], bt, ?_⟩
         simp [c3] at ht
         simp; omega
       · refine ⟨t, true, by simp [c2, e, c3], bt, ?_⟩
